@@ -423,6 +423,9 @@ def gen_C12(chk):
     dbl += [rng.getrandbits(52) | (rng.getrandbits(1) << 63) for _ in range(300 if big else 30)]                  # subnormals
     for b in dbl:
         cases.append(("D", b))
+    # many boxed doubles alive at the same time (a box must stay what it is until it is unboxed)
+    for n_ in ([1, 2, 8, 9, 17, 65, 300] if not big else [1, 2, 3, 7, 8, 9, 15, 16, 17, 31, 32, 33, 64, 65, 127, 128, 129, 300, 1025]):
+        cases.append(("K", n_, rng.choice([0x3ff0000000000000, 0x7ff8000000000001, 0x0000000000000001, 0xfff0000000000000])))
     # structures by value: every size in a range, random content
     for size in (list(range(0, 258)) if big else [0, 1, 2, 3, 4, 7, 8, 9, 15, 16, 17, 24, 31, 32, 33, 63, 64, 65, 127, 128, 129, 255, 256, 257]):
         cases.append(("B", size, bytes(rng.randrange(256) for _ in range(size))))
@@ -444,7 +447,7 @@ def gen_C12(chk):
     for _ in range(200 if big else 20):
         buflen = rng.choice([64, 100, 1000, 4096])
         off = rng.randrange(buflen + 1)
-        size = rng.choice([0, 1, buflen - off, rng.randrange(buflen - off + 1)])
+        size = rng.choice([0, min(1, buflen - off), buflen - off, rng.randrange(buflen - off + 1)])      # never beyond the caller's buffer
         cases.append(("S", buflen, off, size, bytes(rng.randrange(256) for _ in range(size))))
     # captures: every size x position x arity, values that expose truncation / wrong half / sign
     cvals = [0, 1, -1, 0x7f, 0x80, 0xff, 0x100, 0x7fff, 0x8000, 0xffff, 0x10000, 0x7fffffff, 0x80000000, 0xffffffff, 0x100000000,
@@ -467,6 +470,8 @@ def fmt_C12(c):
         return "R %d" % c[1], "(R %d)" % c[1]
     if k == "D":
         return "D %016x" % c[1], "(D %d)" % c[1]
+    if k == "K":
+        return "K %d %016x" % (c[1], c[2]), "(D %d)" % c[2]       # the model's view of one of them: a box is a copy
     if k == "B" and len(c) > 3:
         return "B %d %s %s %d" % (c[1], hexs(c[2]), c[3], c[4]), "(B %d %s %d)" % (c[1], sxb(c[2]), c[4])
     if k == "B":
@@ -484,6 +489,8 @@ def oracle_C12(c):
         return "R " + ";".join([str(c[1])] * (c[3] if len(c) > 2 else 1))
     if k == "D":
         return "D %d" % c[1]
+    if k == "K":
+        return "D %d" % c[2]
     if k == "B":
         return "B " + ";".join([hexs(c[2][:c[1]])] * (c[4] if len(c) > 3 else 1))
     if k == "S":
@@ -509,6 +516,8 @@ def canon_impl_C12(c, o):
         elif k == "D":
             a, b = int(toks[1], 16), int(toks[2], 16)
             res = "D %d" % a if a == b else "D %d/%d" % (a, b)
+        elif k == "K":
+            res = "D %d" % c[2] if toks[1] == "ok" else "box number %s of %d does not give back the bits that went in" % (toks[1], c[1])
         elif k == "B":
             res = "B " + toks[1]
         elif k == "S":
